@@ -104,9 +104,9 @@ func c19Gen(tier string, seed int64) []fw.Case {
 		add(c19Desc{Kind: "write", Role: bothRoles[i%2], N: 40, Defl: i%3 == 0}, fmt.Sprintf("write/%s", bothRoles[i%2]))
 		add(c19Desc{Kind: "read", Role: bothRoles[i%2], N: 60, Defl: i%3 == 1}, fmt.Sprintf("read/%s", bothRoles[i%2]))
 	}
-	na := tierPick(tier, 12, 300)
+	na := tierPick(tier, 40, 600)
 	for i := 0; i < na; i++ {
-		add(c19Desc{Kind: "alias", Role: bothRoles[i%2], N: 60, Conns: 4 + rng.Intn(13)}, fmt.Sprintf("alias/%s", bothRoles[i%2]))
+		add(c19Desc{Kind: "alias", Role: bothRoles[i%2], N: 60, Conns: 8 + rng.Intn(9)}, fmt.Sprintf("alias/%s", bothRoles[i%2]))
 	}
 	bad := []string{
 		``, ` `, `{`, `[1,2`, `{"a":1`, `{"a":}`, `nul`, `tru`, `"unterminated`, `{"a":1}{"b":2}`, `1 2`, `"x"]`, `[1,2,]`, `{"a":1,}`, `'single'`, `{a:1}`, `01`, `1.`, `.5`, `+1`, `NaN`, `Infinity`,
@@ -119,7 +119,11 @@ func c19Gen(tier string, seed int64) []fw.Case {
 			}
 		}
 		// valid JSON that does not fit the target
-		for _, x := range [][2]string{{`"a string"`, "struct"}, {`[1,2]`, "struct"}, {`{"n":"not a number"}`, "struct"}, {`123`, "string"}, {`{"a":1}`, "int"}, {`"x"`, "bytes"}, {`1e400`, "float"}} {
+		long := strings.Repeat("9", 150)
+		for _, x := range [][2]string{
+			{`{"nest":{"nest":{"nest":{"n":"a string where a number is expected, deep inside nested fields"}}}}`, "struct"},
+			{long, "int"}, {`{"l":[1,2,` + long + `]}`, "struct"}, {`{"m":{"some-rather-long-key-name-to-make-the-message-long":` + long + `}}`, "struct"},
+			{`"a string"`, "struct"}, {`[1,2]`, "struct"}, {`{"n":"not a number"}`, "struct"}, {`123`, "string"}, {`{"a":1}`, "int"}, {`"x"`, "bytes"}, {`1e400`, "float"}} {
 			add(c19Desc{Kind: "invalid", Role: role, Doc: x[0], Tgt: x[1]}, fmt.Sprintf("invalid/%s/%q/%s", role, x[0], x[1]))
 		}
 	}
@@ -346,7 +350,7 @@ type c19Struct struct {
 
 // c19Doc builds a document and the matching target kind.
 func c19Doc(rng *fw.Rand) (doc []byte, tgt string) {
-	switch rng.Intn(7) {
+	switch rng.Intn(8) {
 	case 0, 1:
 		v := genValue(rng, 5, true)
 		b, _ := json.Marshal(v)
@@ -367,6 +371,9 @@ func c19Doc(rng *fw.Rand) (doc []byte, tgt string) {
 	case 5:
 		b, _ := json.Marshal(rng.Bytes(rng.Intn(300)))
 		return b, "bytes"
+	case 6:
+		// bare numbers: a stale prefix left in a pooled buffer would silently change the value
+		return []byte(fmt.Sprint(10 + rng.Intn(89))), "any"
 	default:
 		m := map[string]any{}
 		for i := 0; i < rng.Intn(6); i++ {
@@ -498,6 +505,23 @@ func c19Alias(r *fw.R, d c19Desc) {
 			ctx, cancel := context.WithTimeout(context.Background(), 60*time.Second)
 			defer cancel()
 			for i := 0; i < d.N && !r.Failed(); i++ {
+				if k%4 == 1 && i%7 == 6 {
+					// a read that fails in the MIDDLE of a message (the peer dies after a non final fragment, or
+					// the message exceeds the read limit): whatever was buffered must not reach anyone else
+					if k%8 == 1 {
+						peer.Send(wire.Data(wire.OpText, false, []byte(`12`)))
+						peerEnd.Close()
+					} else {
+						c.SetReadLimit(20)
+						peer.Send(wire.Data(wire.OpText, true, []byte(`111111111111111111111111111111`)))
+					}
+					var v any
+					if err := wsjson.Read(ctx, c, &v); err == nil {
+						r.Violate("C19/truncated-message-accepted", fmt.Sprintf("wsjson.Read returned %v for a message that never completed", v), "")
+					}
+					r.Count("reads_failed_mid_message", 1)
+					return
+				}
 				if k%4 == 3 && i%9 == 8 {
 					// an invalid document now and then: the error path handles the pooled buffer too
 					peer.Send(wire.Data(wire.OpText, true, []byte(`{"broken":`)))
